@@ -443,6 +443,25 @@ def cover_check(decl, mode, seed, n, backend, what):
                     fails.append(dict(name='the cover consists of maximal boxes inside (predicate or outside care), covers the predicate, and no smaller such cover exists',
                                       not_prime=str(bad)[:200], uncovered=str(uncovered)[:200],
                                       size=len(boxes), minimum=kmin, **desc))
+                if evals % 3 == 0 and backend != 'autoref':
+                    # the same algorithm through its other entry point (second manager for the search; it
+                    # creates the second manager with the default back end and copies between the two,
+                    # which dd supports only between managers of one kind: default back end only)
+                    try:
+                        cover2 = cov._minimize_two_managers(f, care, c)
+                        prm2 = lat.setup_aux_vars(f, care, c)
+                        boxes2 = _cover_boxes(c, cover2, prm2, names, ref)
+                    except Exception as e:
+                        if len(fails) < 5:
+                            fails.append(dict(name='the covering algorithm, entered through _minimize_two_managers, returns a cover (raises no exception)',
+                                              error=repr(e)[:200], raised_in=_raised_in(e), **desc))
+                        continue
+                    bad = [b for b in boxes2 if b not in primes]
+                    uncovered = [pt for pt in fpts if not any(ref.inside(b, pt) for b in boxes2)]
+                    if (bad or uncovered or len(boxes2) != kmin) and len(fails) < 5:
+                        fails.append(dict(name='the cover returned through _minimize_two_managers consists of maximal boxes inside (predicate or outside care), covers the predicate, and no smaller such cover exists',
+                                          not_prime=str(bad)[:200], uncovered=str(uncovered)[:200],
+                                          size=len(boxes2), minimum=kmin, **desc))
                 continue
             # C08: printed formula
             for opts in (dict(), dict(show_dom=True), dict(show_limits=True), dict(show_dom=True, show_limits=True, comment=False)):
